@@ -42,7 +42,8 @@ def partial_traces(choi, d):
 
 def experiment_for(n, scale=1.0):
     def experiment(circuits, inputs):
-        return [tomo.outcome_frequencies(c, n, tuple(i.s), scale) for c, i in zip(circuits, inputs)]
+        return [tomo.outcome_frequencies(c, n, tuple(i.s), scale * (1 + 0.37 * (j % 5)))
+                for j, (c, i) in enumerate(zip(circuits, inputs))]
     return experiment
 
 
